@@ -234,7 +234,7 @@ _report_re = re.compile(r'<<"(VIOLATION|DRIFT)", "([^"]*)", "([^"]*)", (\d+), (\
 def validate(workdir, trace_files, accts=('a1', 'a2', 'a3', 'a4'), timeout=3000):
     """Runs Trace.tla over every trace file (in parallel). Returns (violations, drifts, lines_checked, outputs)."""
     cfg = os.path.join(workdir, 'trace.cfg')
-    write_cfg(cfg, 'TraceSpec', dict(Accts=set(accts), FeeUnit=1000, MaxHeight=1000000, ViewTopics=set(), ViewDids=set(), ViewDenoms=set(), ViewTokens=set()),
+    write_cfg(cfg, 'TraceSpec', dict(Accts=set(accts), FeeUnit=1000, Deviations=set(), MaxHeight=1000000, ViewTopics=set(), ViewDids=set(), ViewDenoms=set(), ViewTokens=set()),
               extra=['POSTCONDITION TraceAccepted'])
 
     def one(tf):
